@@ -699,3 +699,42 @@ M("C20", "escape-fast-path-dollar", "fields.py",
 M("C01", "drain-fast-path-when-already-released", "response.py",
   "        try:\n            self.read()\n        except (HTTPError, OSError, BaseSSLError, HTTPException):\n            pass",
   "        if self._connection is None:\n            return\n        try:\n            self.read()\n        except (HTTPError, OSError, BaseSSLError, HTTPException):\n            pass", rule=None, benign=True)
+S("C06", "empty-stripped-headers-redefaulted", "C06-R7")
+S("C08", "cn-consulted-with-ip-only-sans", "C08-R4")
+S("C10", "header-keys-not-str-normalised", "C10-R5")
+S("C14", "scheme-lowered-only-in-url-new", "C14-R4")
+S("C19", "request-timeout-not-applied-before-tunnel", "C19-R4")
+M("C06", "defaults-when-headers-is-none", "poolmanager.py",
+  "        if \"headers\" not in kw:\n            kw[\"headers\"] = self.headers", "        if kw.get(\"headers\") is None:\n            kw[\"headers\"] = self.headers", rule=None, benign=True)
+M("C06", "defaults-when-headers-falsy", "poolmanager.py",
+  "        if \"headers\" not in kw:\n            kw[\"headers\"] = self.headers", "        if not kw.get(\"headers\"):\n            kw[\"headers\"] = self.headers", rule="C06-R7")
+# ---- C16 effect tables
+M("C16", "add-combine-joins-first-value", "_collections.py", "                vals[-1] = vals[-1] + \", \" + val", "                vals[1] = vals[1] + \", \" + val", rule="C16-R6")
+M("C16", "add-combine-default-true", "_collections.py", "    def add(self, key: str, val: str, *, combine: bool = False) -> None:", "    def add(self, key: str, val: str, *, combine: bool = True) -> None:", rule="C16-R6")
+M("C16", "add-prepends", "_collections.py", "                vals.append(val)", "                vals.insert(1, val)", rule="C16-R6")
+M("C16", "add-replaces-spelling", "_collections.py", "                vals.append(val)", "                vals[0] = key\n                vals.append(val)", rule="C16-R6")
+M("C16", "getitem-joins-without-space", "_collections.py", "        return \", \".join(val[1:])\n\n    def __delitem__", "        return \",\".join(val[1:])\n\n    def __delitem__", rule="C16-R5")
+M("C16", "getitem-includes-spelling", "_collections.py", "        return \", \".join(val[1:])\n\n    def __delitem__", "        return \", \".join(val[0:])\n\n    def __delitem__", rule="C16-R5")
+M("C16", "extend-from-headerdict-merged", "_collections.py", "            for key, val in other.iteritems():\n                self.add(key, val)", "            for key, val in other.itermerged():\n                self.add(key, val)", rule="C16-R7")
+M("C16", "extend-mapping-by-assignment", "_collections.py", "            for key, val in other.items():\n                self.add(key, val)", "            for key, val in other.items():\n                self[key] = val", rule="C16-R")
+MUTANTS.append(dict(prop="C16", name="extend-kwargs-first", rule="C16-R7", benign=False, edits=[
+    ("_collections.py", "        other = args[0] if len(args) >= 1 else ()\n", "        other = args[0] if len(args) >= 1 else ()\n        for key, value in kwargs.items():\n            self.add(key, value)\n"),
+    ("_collections.py", "                self.add(key, other[key])\n\n        for key, value in kwargs.items():\n            self.add(key, value)\n", "                self.add(key, other[key])\n"),
+]))
+M("C16", "extend-combines", "_collections.py", "            for key, value in other:\n                self.add(key, value)", "            for key, value in other:\n                self.add(key, value, combine=True)", rule="C16-R7")
+M("C16", "iter-yields-lowercase-key", "_collections.py", "        for vals in self._container.values():\n            yield vals[0]", "        for k in self._container:\n            yield k", rule="C16-R8")
+M("C16", "iteritems-skips-first-value", "_collections.py", "            for val in vals[1:]:\n                yield vals[0], val", "            for val in vals[2:]:\n                yield vals[0], val", rule="C16-R8")
+M("C16", "itermerged-yields-lookup-key", "_collections.py", "            yield val[0], \", \".join(val[1:])", "            yield key.lower(), \", \".join(val[1:])", rule="C16-R8")
+M("C16", "getlist-returns-last-only", "_collections.py", "            return vals[1:]\n", "            return vals[-1:]\n", rule="C16-R8")
+M("C16", "copy-from-drops-repeats", "_collections.py", "            self._container[key.lower()] = [key, *val]", "            self._container[key.lower()] = [key, val[0]]", rule="C16-R9")
+M("C16", "or-extends-self", "_collections.py", "        result = self.copy()\n        result.extend(maybe_constructable)\n        return result", "        self.extend(maybe_constructable)\n        return self.copy()", rule="C16-R")
+M("C16", "ror-order-swapped", "_collections.py", "        result = type(self)(maybe_constructable)\n        result.extend(self)\n        return result", "        result = self.copy()\n        result.extend(maybe_constructable)\n        return result", rule="C16-R9")
+M("C16", "discard-swallows-everything", "_collections.py", "        try:\n            del self[key]\n        except KeyError:\n            pass", "        try:\n            del self[key]\n        except Exception:\n            pass", rule=None, benign=True)
+M("C16", "benign-add-explicit-branch", "_collections.py",
+  "        vals = self._container.setdefault(key_lower, new_vals)\n        if new_vals is not vals:",
+  "        vals = self._container.get(key_lower)\n        if vals is None:\n            self._container[key_lower] = new_vals\n        else:", rule=None, benign=True)
+M("C16", "benign-getitem-temporaries", "_collections.py", "        val = self._container[key.lower()]\n        return \", \".join(val[1:])\n\n    def __delitem__",
+  "        lowered = key.lower()\n        stored = self._container[lowered]\n        values = stored[1:]\n        sep = \", \"\n        return sep.join(values)\n\n    def __delitem__", rule=None, benign=True)
+M("C16", "benign-iteritems-local-spelling", "_collections.py", "            for val in vals[1:]:\n                yield vals[0], val", "            spelling = vals[0]\n            rest = vals[1:]\n            for val in rest:\n                yield spelling, val", rule=None, benign=True)
+S("C03", "generator-exit-is-clean", "C01-R6")
+MUTANTS.append(dict(prop="C03", name="fixed:F15-early-release-recycles-unread-body", patch="selftest/patches/f15_fix.diff", reverse=True, rule="C03-R8", benign=False))
